@@ -158,7 +158,8 @@ Definition zero_of (p : pty) : barg :=
   | PFloat => BV (VFloat 0%float) | PHTML => BV (VHTML [])
   | PStructT n => BV (VStruct n [])
   | PPtrT n => BV (VNilPtr n)
-  | _ => BV VNil                 (* nil interface / map / slice / helper context *)
+  | PHCtx => BV (VOther 2)       (* the zero HelperContext struct (no context, no block) *)
+  | _ => BV VNil                 (* nil interface / map / slice *)
   end.
 
 (* hc(arg): what is supplied for a missing trailing parameter *)
